@@ -1,0 +1,10 @@
+//go:build verif
+
+package web
+
+// VerifResetRouter replaces the shared Router with a fresh one built exactly as the package
+// builds it, so that a verification harness can assemble several configurations (e.g. base
+// paths) in one process (only compiled with the verif build tag).
+func VerifResetRouter() {
+	Router = newRouter()
+}
